@@ -29,6 +29,14 @@ func (ex *Exec) instr(fr *Frame, in ssa.Instruction, st *State, pc *Term) *Term 
 		r := ex.alloc(st, x.Comment)
 		ex.storeAt(st, et, r, zeroVal(et))
 		fr.vals[x] = r
+		if !aggregate(et) && !allocEscapes(x) {
+			// a local cell whose address never leaves this function (it may be captured by closures,
+			// whose invocations are modelled separately): no callee can write it behind our back
+			for _, l := range leaves(et) {
+				n, _ := cellComp(et, l)
+				ex.localCells[n] = append(ex.localCells[n], r)
+			}
+		}
 	case *ssa.BinOp:
 		fr.vals[x] = ex.binop(fr, x, st, &pc)
 	case *ssa.UnOp:
@@ -139,6 +147,9 @@ func (ex *Exec) instr(fr *Frame, in ssa.Instruction, st *State, pc *Term) *Term 
 			fv.Bind = append(fv.Bind, ex.val(fr, b))
 		}
 		fr.vals[x] = fv
+		if fn.Blocks != nil && fn.Synthetic == "" && len(fv.Bind) > 0 {
+			fr.closures = append(fr.closures, fv)
+		}
 	case *ssa.MapUpdate:
 		ex.mapUpdate(fr, x, st, &pc)
 	case *ssa.Store:
@@ -847,4 +858,37 @@ func (ex *Exec) ghostEvent(fr *Frame, kind string, pos token.Pos, st *State, pc 
 
 func (ex *Exec) goStmt(fr *Frame, x *ssa.Go, st *State, pc *Term) {
 	ex.unsupported("go statement: spawned body verified separately; shared cells not tracked")
+}
+
+// allocEscapes: does the address of a local leave the function other than through closures?
+func allocEscapes(a *ssa.Alloc) bool {
+	var visit func(v ssa.Value, depth int) bool
+	visit = func(v ssa.Value, depth int) bool {
+		refs := v.Referrers()
+		if refs == nil || depth > 4 {
+			return true
+		}
+		for _, r := range *refs {
+			switch x := r.(type) {
+			case *ssa.Store:
+				if x.Val == v {
+					return true
+				}
+			case *ssa.UnOp, *ssa.DebugRef:
+			case *ssa.MakeClosure:
+			case *ssa.FieldAddr:
+				if visit(x, depth+1) {
+					return true
+				}
+			case *ssa.IndexAddr:
+				if visit(x, depth+1) {
+					return true
+				}
+			default:
+				return true
+			}
+		}
+		return false
+	}
+	return visit(a, 0)
 }
